@@ -3,7 +3,7 @@
 set -e
 cd "$(dirname "$(readlink -f "$0")")/.."
 ID="$1"; br=$(echo "$ID" | tr 'A-Z' 'a-z')
-git merge -q --no-ff -m "merge $br ($ID builder)" "$br"
+git merge -q --no-ff -m "merge $br ($ID builder)" "$br" || { for f in $(git diff --name-only --diff-filter=U); do case "$f" in evidence/*) git checkout --ours "$f"; git add "$f";; *) echo "CONFLICT $f"; exit 1;; esac; done; git commit -q -m "merge $br ($ID builder)"; }
 /venv/bin/python - "$ID" <<'PY'
 import re,sys
 p='harness/props/__init__.py'; t=open(p).read()
